@@ -108,6 +108,28 @@ theorem pucOrder_spec : pucOrder =
      "IfStmt:apply,call_function_interactive,command_giver,current_interactive,get_user_command,iflags,ip,print_prompt,process_command,user_command",
      "BinaryOperator:command_giver", "BinaryOperator:current_interactive"] := rfl
 
+open NV.Gen.C12 in
+/-- first_cmd_in_buf: skip NULs (text_start), empty -> reset, single-char -> hit, find the end, terminated -> hit,
+    otherwise move the partial line to the front (and truncate an over-long one) - the order `firstCmd` mirrors -/
+theorem firstCmdInBufOrder_spec : firstCmdInBufOrder =
+    ["BinaryOperator:ip,text,text_start", "WhileStmt:ip,text,text_end", "BinaryOperator:ip,text,text_start",
+     "IfStmt:ip,text,text_end,text_start", "IfStmt:iflags,ip,text,text_start", "WhileStmt:ip,text,text_end",
+     "IfStmt:ip,text,text_end,text_start", "BinaryOperator:ip,text,text_start", "BinaryOperator:ip,text",
+     "WhileStmt:ip,text,text_end", "CompoundAssignOperator:ip,text_end,text_start", "BinaryOperator:ip,text_start",
+     "IfStmt:ip,text,text_end"] := rfl
+
+open NV.Gen.C12 in
+/-- cmd_in_buf: skip NULs, empty -> no, single-char -> yes, find the end, terminated -> yes (`hasCmd`) -/
+theorem cmdInBufOrder_spec : cmdInBufOrder =
+    ["BinaryOperator:ip,text,text_start", "WhileStmt:ip,text,text_end", "IfStmt:ip,text,text_end", "IfStmt:iflags,ip",
+     "WhileStmt:ip,text,text_end", "IfStmt:ip,text,text_end"] := rfl
+
+open NV.Gen.C12 in
+/-- next_cmd_in_buf: step over the command, over the NULs behind it, advance text_start or reset (`nextCmd`) -/
+theorem nextCmdInBufOrder_spec : nextCmdInBufOrder =
+    ["DeclStmt:ip,text,text_start", "WhileStmt:ip,text,text_end", "WhileStmt:ip,text,text_end",
+     "IfStmt:ip,text,text_end,text_start"] := rfl
+
 /-! ### finite maps -/
 
 theorem AMap.get_filter_ne {α : Type} [Inhabited α] (m : AMap α) (k i : Nat) (h : i ≠ k) :
